@@ -122,6 +122,8 @@ def validate(cases, workdir, label):
     rc, o, wall = tlc.run_tlc('ChunkTrace.tla', cf, workdir, env={'TRACE_FILE': tf}, workers=1, timeout=900)
     v = tlc.parse_tuples(o)
     st = tlc.parse_stats(o)
+    if os.environ.get('VERIF_DEBUG') and (not st['completed'] or len(v['DONE']) != len(cases)):
+        open('/tmp/verif_c11_fail_%s.txt' % label, 'w').write(o)
     return {'ok': st['completed'], 'out': '' if st['completed'] else o, 'done': len(v['DONE']), 'n': len(cases),
             'viol': [tlc.parse_verdict_line(b) for b in v['VIOL']], 'drift': [tlc.parse_verdict_line(b) for b in v['DRIFT']]}
 
